@@ -32,6 +32,30 @@ class Gen:
                     if self.modpath and (f['module'] == self.modpath or f['module'].startswith(self.modpath + '::'))]
         self.impls = [i for i in facts.impls
                       if self.modpath and (i['module'] == self.modpath or i['module'].startswith(self.modpath + '::'))]
+        # impls the expansion places *outside* the generated module (none on the pinned tree) are generated code all
+        # the same: they are analysed with the rest
+        self.detached_impls = []
+        if self.adt is not None:
+            mine = {i['lid'] for i in self.impls}
+            for i in facts.impls:
+                if i['lid'] in mine or not str(i.get('span', '')).startswith('!'):
+                    continue
+                if self.self_kind(i) is not None:
+                    self.detached_impls.append(i)
+            if self.detached_impls:
+                self.impls = self.impls + self.detached_impls
+                have = {f['lid'] for f in self.fns}
+                for i in self.detached_impls:
+                    for it in i['items']:
+                        f = facts.fns.get(it['lid'])
+                        if f is not None and f['lid'] not in have:
+                            self.fns.append(f)
+                            have.add(f['lid'])
+                            # closures of those functions
+                            for c in facts.fns.values():
+                                if c['kind'] == 'Closure' and c['path'].startswith(f['path'] + '::') and c['lid'] not in have:
+                                    self.fns.append(c)
+                                    have.add(c['lid'])
         self._paths = {}
 
     # ---- lookup
